@@ -9,6 +9,6 @@ echo "--- test suite with the refactoring"; /venv/bin/python -m pytest -q -p no:
 cd /verif
 for P in "$@"; do
   echo "--- ./check $P on the refactored tree"
-  ALGOPY_REPO=$EV ./check $P 2>&1 | grep -E "VIOLATION|site=|UNDECIDED|CRASH|tier=" | cut -c1-330 | head -14
+  VERIF_EVIDENCE_DIR=/tmp/ev_evidence_$$ ALGOPY_REPO=$EV ./check $P 2>&1 | grep -E "VIOLATION|site=|UNDECIDED|CRASH|tier=" | cut -c1-330 | head -14
 done
-git -C /repo worktree remove --force $EV; rm -rf $EV
+git -C /repo worktree remove --force $EV; rm -rf $EV /tmp/ev_evidence_$$
